@@ -14,3 +14,17 @@ func VerifIsEmptyField(structPtr interface{}, i int, recursive bool) bool {
 
 // VerifC05SafeMode reports whether this build uses the reflect-only helpers.
 func VerifC05SafeMode() bool { return safeMode }
+
+// VerifFieldOffsets returns, for every field of struct type t that the codec resolves
+// WITHOUT going through an embedded struct, the field's index and the byte offset the
+// codec stored for it (structFieldInfoNode.offset, what the unsafe field access adds to the base).
+func VerifFieldOffsets(t reflect.Type) (index []int, offset []uint64) {
+	ti := defTypeInfos.get(rt2id(t), t)
+	for _, si := range ti.sfi.source() {
+		if len(si.parents) == 0 {
+			index = append(index, int(si.node.index))
+			offset = append(offset, uint64(si.node.offset))
+		}
+	}
+	return
+}
